@@ -496,7 +496,8 @@ func (x *Exec) evalIndex(env *SpecEnv, ie *ast.IndexExpr) specVal {
 	case *types.Map:
 		_, _, hm := x.mapHas(st, v.typ)
 		_, _, vm := x.mapVal(st, v.typ)
-		has := fmt.Sprintf("(select (select %s %s) %s)", hm, v.term, i.term)
+		// a nil map has no entries
+		has := fmt.Sprintf("(and (not (= %s 0)) (select (select %s %s) %s))", v.term, hm, v.term, i.term)
 		return specVal{term: ite(has, fmt.Sprintf("(select (select %s %s) %s)", vm, v.term, i.term), x.vc.zero(u.Elem())), typ: u.Elem()}
 	case *types.Basic:
 		return specVal{term: fmt.Sprintf("(str_at %s %s)", v.term, i.term), typ: types.Typ[types.Byte]}
@@ -606,7 +607,7 @@ func (x *Exec) evalCall(env *SpecEnv, c *ast.CallExpr) specVal {
 				st = env.old
 			}
 			_, _, hm := x.mapHas(st, m.typ)
-			return specVal{term: fmt.Sprintf("(select (select %s %s) %s)", hm, m.term, k.term), typ: tBool}
+			return specVal{term: fmt.Sprintf("(and (not (= %s 0)) (select (select %s %s) %s))", m.term, hm, m.term, k.term), typ: tBool}
 		case "G_sameslice":
 			a := x.evalSpec(env, c.Args[0])
 			b := x.evalSpec(env, c.Args[1])
